@@ -53,6 +53,35 @@ def make(pid, macro, profile, named, idx, seed, gates=None, heavy=False):
                    unwind=64 if not is_async else max(12, pp.max_polls() + 3))
 
 
+def make_in_wrapper(pid, macro, variant):
+    """a `let` name read by a block capture that stands INSIDE a `>>>` wrapper of a later step (block captures inside wrappers are hoisted in front of
+    their step like all others), also after the named branch has finished, and a name read by the capture of a THIRD step"""
+    is_async, is_try, is_spawn = KINDS[macro]
+    msg = lambda t: "\"C12[%s]: %s\"" % (pid, t)
+    w = (lambda x: "mo(true, %s)" % x) if is_try else (lambda x: "Some(%s)" % x)
+    rd = (lambda nm: "match %s { Some(x) => x, None => 0 }" % nm)
+    L = ["names_off();" if is_spawn else "", "let p0 = u(); let p1 = u(); let q = u(); let q2 = u();"]
+    if variant == "finished":
+        # branch 0 (named) has one step; branch 1 reads the name inside a wrapper in step 1 and again in step 2
+        text = ("%s! { let nm0 = %s, %s ~|> >>> -> { eva(101, %s); move |v: u8| v ^ q } <<< ~|> { eva(102, %s); move |v: u8| v ^ q2 } }"
+                % (macro, w("p0"), w("p1"), rd("nm0"), rd("nm0")))
+        exp_vals = ("p0", "p1 ^ q ^ q2")
+        snaps = [(101, "p0"), (102, "p0")]
+    else:
+        # both named; branch 0 reads branch 1's name inside a two-deep wrapper in step 1, branch 1 reads branch 0's step-1 value in step 2
+        text = ("%s! { let nm0 = %s ~|> >>> -> { eva(101, %s); move |v: u8| v ^ q } <<<, let mut nm1 = %s ~|> move |v: u8| v ^ q2 ~|> { eva(102, %s); move |v: u8| v } }"
+                % (macro, w("p0"), rd("nm1"), w("p1"), rd("nm0")))
+        exp_vals = ("p0 ^ q", "p1 ^ q2")
+        snaps = [(101, "p1"), (102, "p0 ^ q")]
+    L.append("let r = %s;" % text)
+    tup = "(%s, %s)" % exp_vals
+    L.append("vassert!(r == %s, %s);" % ("Some(%s)" % tup if is_try else "(Some(%s), Some(%s))" % exp_vals, msg("`let` names do not change the result")))
+    for ev_, val_ in snaps:
+        L.append("vassert!(cnt(%d) == 1 && arg(%d) == %s, %s);" % (ev_, ev_, val_, msg("a capture inside a wrapper / in a later step sees the named branch's most recent step result")))
+    L.append("vcover!(true, \"end reached\");")
+    return Program(pid, text, "    " + "\n    ".join(l for l in L if l), desc=dict(macro=macro, variant=variant, capture="inside a `>>>` wrapper"), group="in-wrapper/" + macro, role=dict(kind=macro), unwind=64, weight=2)
+
+
 def subsets(nb, tier, r):
     full = [set(c) for k in range(1, nb + 1) for c in __import__("itertools").combinations(range(nb), k)]
     if tier == "thorough" or nb <= 2:
@@ -80,6 +109,13 @@ def programs(tier, seed):
     for macro, prof, named in aprofs:
         i += 1
         ps.append(make("p%04d" % i, macro, prof, named, i, seed, gates=1 if tier == "thorough" else None))
+    i = 900
+    for macro in ("join", "try_join", "join_spawn", "try_join_spawn"):
+        for variant in ("finished", "both"):
+            i += 1
+            if tier == "quick" and KINDS[macro][2] and (i + seed) % 2:
+                continue
+            ps.append(make_in_wrapper("p%04d" % i, macro, variant))
     return ps
 
 
